@@ -598,16 +598,16 @@ package lua
 // string.match (manual §5.4; lstrlib str_find_aux with find == 0): start position, and the number of results
 // ---------------------------------------------------------------------------
 
-//@ trusted unsafeFastStringToReadOnlyBytes [C14]
+//@ trusted unsafeFastStringToReadOnlyBytes [C14 C15]
 //@ noraise
 //@ ensures  len(result) == len(s) && offset(result) == 0
 //@ modifies nothing
 
-//@ iface error.Error [C14]
+//@ iface error.Error [C14 C15]
 //@ noraise
 //@ modifies nothing
 
-//@ func strMatch [C14]
+//@ func strMatch [C14 C15]
 //@ requires Inv_gfn(L) && isStr(arg(L, 1)) && isStr(arg(L, 2)) && (isNil(arg(L, 3)) || isNum(arg(L, 3)))
 // the matcher is started at posrelat(init) - 1 clamped at 0 (0-based), with the pattern as given and limit 1
 //@ assert@"mds, err := pm.Find" offset == max(posrelat(ite(isNil(arg(L, 3)), 1, f2i(num(arg(L, 3)))), len(str(arg(L, 1)))) - 1, 0) && pattern == str(arg(L, 2)) && str == str(arg(L, 1))
@@ -636,3 +636,13 @@ package lua
 //@ ensures  "plain": old(fs.Pos < fs.Length && sbyte(fs.str, fs.Pos) != fs.flag) ==> !result1 && result0 == old(sbyte(fs.str, fs.Pos)) && fs.Pos == old(fs.Pos) + 1 && len(fs.buf) == old(len(fs.buf)) && !fs.ChangeFlag && fs.HasFlag == old(fs.HasFlag)
 //@ ensures  "flag-start": old(fs.Pos + 1 < fs.Length && sbyte(fs.str, fs.Pos) == fs.flag && sbyte(fs.str, fs.Pos + 1) != fs.flag) ==> !result1 && fs.ChangeFlag && fs.HasFlag && fs.Pos == old(fs.Pos) + 1
 //@ modifies fs.*, fs.buf[*]
+
+// string.reverse: the result has the bytes of the argument in reverse order; the argument itself (a Go string, shared
+// by every value that holds it) is never written: the only heap effects are on fresh byte arrays and the value stack
+//@ func strReverse [C15]
+//@ requires Inv_gfn(L) && isStr(arg(L, 1))
+//@ raises when top(L) + 1 > cap(L.reg.array)
+//@ ensures  result == 1 && top(L) == old(top(L)) + 1 && argsKept(L) && isStr(pushed(L, 0)) && len(str(pushed(L, 0))) == old(len(str(arg(L, 1))))
+//@ ensures  "reversed": forall k int :: 0 <= k && k < old(len(str(arg(L, 1)))) ==> sbyte(str(pushed(L, 0)), k) == old(sbyte(str(arg(L, 1)), len(str(arg(L, 1))) - 1 - k))
+//@ modifies L.reg.array, L.reg.top, L.reg.array[*]
+//@ loop 1 invariant 0 <= i && j == len(bts) - 1 - i && j >= -1 && len(out) == len(bts) && offset(out) == 0 && offset(bts) == 0 && fresh(out) && len(bts) == len(str) && (forall k int :: 0 <= k && k < i ==> out[k] == bts[len(bts) - 1 - k]) && (forall k int :: 0 <= k && k < len(bts) ==> bts[k] == sbyte(str, k))
